@@ -409,7 +409,7 @@ def replay_tapes(case):
 BIGFILE = bytes(range(256)) * 1300  # 332800 bytes: more than the 64 KiB write buffer
 
 
-async def _backpressure(loop, kind, read_first, followup, wait_before_abor):
+async def _backpressure(loop, kind, read_first, followup, wait_before_abor, reset=None):
     server = aioftp.Server(path_io_factory=aioftp.MemoryPathIO, block_size=8192, wait_future_timeout=3)
     await server.start(HOST, PORT)
     tree = {"/": DIR, "/big": BIGFILE, "/g": OLD, "/d": DIR}
@@ -435,7 +435,12 @@ async def _backpressure(loop, kind, read_first, followup, wait_before_abor):
     await asyncio.sleep(wait_before_abor)
     sdata = [t for t in loop.net.all_transports if t.side == "s" and t.listener_port != PORT][-1]
     blocked = sdata.paused_at is not None
+    # a user abort in a real client: ABOR goes out and the data socket is dropped in the same breath
+    if reset == "before":
+        dw.transport.abort()
     raw.send("ABOR")
+    if reset == "after":
+        dw.transport.abort()
     replies = [code]
     while True:
         c_, _l = await raw.reply(9.0)
@@ -445,9 +450,12 @@ async def _backpressure(loop, kind, read_first, followup, wait_before_abor):
         replies.append(c_)
     closed_by_server = sdata._closing
     # the peer now gives up its side (a real client does that after the 226)
-    dw.transport.resume_reading()
-    rest, eof = await read_all(dr, 30)
-    dw.close()
+    if reset:
+        rest, eof = b"", True
+    else:
+        dw.transport.resume_reading()
+        rest, eof = await read_all(dr, 30)
+        dw.close()
     fu = None
     if end != "EOF":
         if followup == "PWD":
@@ -478,12 +486,18 @@ def backpressure_cases(tier):
             for fu in ("PWD", "RETR"):
                 for w in ((0.5,) if tier == "quick" else (0.5, 0.0, 2.0)):
                     out.append((kind, read_first, fu, w))
+    for kind in ("RETR", "LIST", "MLSD"):
+        for read_first in (0, 8192):
+            for reset in ("before", "after"):
+                for w in (0.5, 0.0):
+                    out.append((kind, read_first, "PWD", w, reset))
     return out
 
 
 def judge_backpressure(case, out):
-    kind, read_first, fu, w = case
-    detail = dict(kind=kind, read_first=read_first, followup_kind=fu, **{k: v for k, v in out.items()})
+    kind, read_first, fu, w = case[:4]
+    detail = dict(kind=kind, read_first=read_first, followup_kind=fu, data_socket_reset=case[4] if len(case) > 4 else None,
+                  **{k: v for k, v in out.items()})
 
     def bad(sym):
         raise Violation(f"C14/backpressure/{kind}/{sym}", detail)
@@ -496,6 +510,8 @@ def judge_backpressure(case, out):
         if len(r) < 3:
             bad("abor_unanswered")
         bad("reply_sequence_" + "+".join(r))
+    if len(case) > 4 and r != ("150", "426", "226"):
+        bad("interrupted_transfer_answered_as_completed")
     if not out["closed_by_server"]:
         bad("data_connection_not_closed_by_server")
     if out["eof_after"] is False:
@@ -672,10 +688,14 @@ async def _yields(loop, kind, k, gap_iterations):
         if c in ("EOF", "SILENCE"):
             break
     follow = (await raw.cmd("PWD"))[0] if replies[-1] != "EOF" else None
+    # the data connection of an interrupted transfer is closed by the server
+    eof = None
+    if "426" in replies:
+        _d, eof = await harness.read_all(dr, 3)
     raw.close()
     dw.close()
     await asyncio.wait_for(server.close(), 1000)
-    return dict(replies=replies, follow=follow)
+    return dict(replies=replies, follow=follow, data_eof=eof)
 
 
 def yields_cases(tier):
@@ -692,6 +712,8 @@ def judge_yields(case, out):
         raise Violation(f"C14/yields/{sym}/{kind}", detail)
     if out["follow"] != "257":
         raise Violation(f"C14/yields/session_not_usable_afterwards/{kind}", detail)
+    if out.get("data_eof") is False:
+        raise Violation(f"C14/yields/data_connection_left_open/{kind}", detail)
 
 
 def part_yields(ctx):
